@@ -526,6 +526,9 @@ func (c *e3) fieldClassEx(fn *Func, x ast.Expr, name string, whole ast.Expr, dep
 	// an owned container (a local struct value, or a pointer to a literal built here): the
 	// field's class comes from its own initialiser, not from the container's other fields
 	if fc, ok := c.fieldInit(fn, x, name, depth); ok {
+		if os.Getenv("HCLVERIF_E3DEBUG") != "" && strings.Contains(fn.Name, os.Getenv("HCLVERIF_E3DEBUG")) {
+			fmt.Printf("E3DEBUG fieldInit %s.%s -> lvl=%s self=%x inner=%x holds=%x\n", exprStr(x), name, fc.lvl, fc.self, fc.inner, fc.holds)
+		}
 		base = fc
 	} else if whole != nil && contractImm(info.TypeOf(whole)) && base.lvl <= oFresh {
 		// an address held by an owned container may still be the original's (copies share
@@ -569,6 +572,21 @@ func (c *e3) fieldInit(fn *Func, x ast.Expr, name string, depth int) (cls, bool)
 				for i, l := range s.Lhs {
 					if lid, ok := ast.Unparen(l).(*ast.Ident); ok && of.Info().ObjectOf(lid) == o {
 						rhs = s.Rhs[i]
+					}
+				}
+			} else if len(s.Rhs) == 1 && len(s.Lhs) == 2 {
+				// x, ok := m[k]: x is an element of m
+				if ix, ok := ast.Unparen(s.Rhs[0]).(*ast.IndexExpr); ok {
+					if lid, ok := ast.Unparen(s.Lhs[0]).(*ast.Ident); ok && of.Info().ObjectOf(lid) == o {
+						// (the comma-ok expression itself has a tuple type: only the precise
+						// local-container reading applies, anything else keeps the load-from-x rule)
+						fc, ok := c.fieldOfLocalElems(of, ix, name, depth+1)
+						if !ok {
+							return cls{}, false
+						}
+						n++
+						res = res.join(fc)
+						continue
 					}
 				}
 			}
@@ -646,6 +664,12 @@ func (c *e3) fieldOfValue(fn *Func, e ast.Expr, name string, depth int) (cls, bo
 				}
 			}
 		}
+	case *ast.IndexExpr:
+		// an element of a container built in this function: its field is the join of that
+		// field over everything stored into the container
+		if fc, ok := c.fieldOfLocalElems(fn, x, name, depth); ok {
+			return fc, true
+		}
 	case *ast.StarExpr:
 		return c.classify(fn, x.X, depth+1).load(), true
 	case *ast.Ident:
@@ -656,6 +680,100 @@ func (c *e3) fieldOfValue(fn *Func, e ast.Expr, name string, depth int) (cls, bo
 	}
 	// any other expression: a field of a deep value is deep; otherwise loaded from it
 	return c.classify(fn, e, depth+1).load(), true
+}
+
+// fieldOfLocalElems: ix indexes a local map/slice whose every definition is a fresh
+// make()/literal and whose only other uses are element stores, reads, ranges, len and being
+// returned; the class of field `name` of its elements is the join over the stored values.
+func (c *e3) fieldOfLocalElems(fn *Func, ix *ast.IndexExpr, name string, depth int) (cls, bool) {
+	info := fn.Info()
+	id, ok := ast.Unparen(ix.X).(*ast.Ident)
+	if !ok {
+		return cls{}, false
+	}
+	o, ok := info.ObjectOf(id).(*types.Var)
+	if !ok || o.IsField() || c.ownerFunc(fn, o) != fn {
+		return cls{}, false
+	}
+	if _, isParam := c.paramClass(fn, o); isParam {
+		return cls{}, false
+	}
+	for _, d := range defsOfIdent(fn, o) {
+		if d == nil || !freshValue(info, d) {
+			return cls{}, false
+		}
+	}
+	key := fmt.Sprintf("fe%p.%s", o, name)
+	if c.busy[key] {
+		c.busyHits++
+		return cl(oImm), true
+	}
+	c.busy[key] = true
+	defer delete(c.busy, key)
+	res := cl(oImm)
+	okAll := true
+	ast.Inspect(fn.Body, func(n ast.Node) bool {
+		if !okAll {
+			return false
+		}
+		uid, isId := n.(*ast.Ident)
+		if !isId || info.Uses[uid] != o {
+			return true
+		}
+		par := fn.Prog.Parent(uid)
+		switch pp := par.(type) {
+		case *ast.IndexExpr:
+			if pp.X != ast.Expr(uid) {
+				return true // used as an index
+			}
+			// a store m[k] = v, or m[k].f = … / a read
+			if as, ok := fn.Prog.Parent(pp).(*ast.AssignStmt); ok {
+				for i, l := range as.Lhs {
+					if ast.Unparen(l) == ast.Expr(pp) && len(as.Lhs) == len(as.Rhs) {
+						fc, ok := c.fieldOfValue(fn, as.Rhs[i], name, depth+1)
+						if !ok {
+							okAll = false
+							return false
+						}
+						res = res.join(fc)
+					}
+				}
+			}
+		case *ast.RangeStmt, *ast.ReturnStmt:
+		case *ast.CallExpr:
+			if !isLenCall(info, pp) && !isBuiltinCall(info, pp, "delete") {
+				okAll = false
+			}
+		case *ast.AssignStmt:
+			// its own definition
+			for _, l := range pp.Lhs {
+				if ast.Unparen(l) == ast.Expr(uid) {
+					return true
+				}
+			}
+			okAll = false
+		case *ast.ValueSpec:
+		default:
+			okAll = false
+		}
+		return true
+	})
+	if !okAll {
+		return cls{}, false
+	}
+	// stores through element paths (m[k].name = v) recorded by the demotion table
+	// (whole-element stores m[k] = v were followed precisely above; only deeper paths count)
+	steps := "[]." + name
+	for d, v := range c.demote[o] {
+		d0 := strings.TrimSuffix(d, "«addr»")
+		switch {
+		case d0 == steps:
+			res = res.join(v)
+		case strings.HasPrefix(d0, steps):
+			res = res.join(containerOf([]cls{v}))
+		}
+	}
+	return res, true
 }
 
 // instantiate: turn a callee-relative class into the caller's terms at a call site.
